@@ -1554,12 +1554,15 @@ func (v *VM) execute(ctx *Context, op opcode.Opcode, parameter []byte) (err erro
 			index := t.Index(key.Item())
 			// No error on missing key.
 			if index >= 0 {
-				if t.IsReferenced() {
-					elems := t.Value().([]stackitem.MapElement)
-					v.refs.Remove(elems[index].Key)
-					v.refs.Remove(elems[index].Value)
-				}
+				elems := t.Value().([]stackitem.MapElement)
+				k, val := elems[index].Key, elems[index].Value
+				// Drop first: if the value is the map itself, its last reference may
+				// go away below and its (remaining) elements are then released.
 				t.Drop(index)
+				if t.IsReferenced() {
+					v.refs.Remove(k)
+					v.refs.Remove(val)
+				}
 			}
 		default:
 			panic("REMOVE: invalid type")
